@@ -165,6 +165,45 @@ pub struct Net {
     pub nwrites: usize,
     /// Number of `read` calls that returned bytes.
     pub reads: usize,
+    /// The waker of the task whose `read` returned `Pending` last (the transport's side of the waker contract):
+    /// woken and cleared by `Net::wake` when bytes arrive, the peer closes or reads start failing.
+    pub waker: Option<Waker>,
+}
+
+impl Net {
+    /// Something a pending `read` waits for has happened.
+    pub fn wake(&mut self) {
+        if let Some(w) = self.waker.take() {
+            w.wake();
+        }
+    }
+}
+
+/// The executor's side of the waker contract: a flag that the task's waker sets.
+pub struct WakeFlag(pub std::sync::atomic::AtomicBool);
+impl std::task::Wake for WakeFlag {
+    fn wake(self: std::sync::Arc<Self>) {
+        self.0.store(true, std::sync::atomic::Ordering::SeqCst);
+    }
+    fn wake_by_ref(self: &std::sync::Arc<Self>) {
+        self.0.store(true, std::sync::atomic::Ordering::SeqCst);
+    }
+}
+impl WakeFlag {
+    /// A freshly spawned task is scheduled once.
+    pub fn new() -> std::sync::Arc<Self> {
+        std::sync::Arc::new(WakeFlag(std::sync::atomic::AtomicBool::new(true)))
+    }
+    pub fn take(&self) -> bool {
+        self.0.swap(false, std::sync::atomic::Ordering::SeqCst)
+    }
+}
+
+/// Polls a future once with the flag's waker.
+pub fn poll_flag<F: Future + ?Sized>(fut: Pin<&mut F>, flag: &std::sync::Arc<WakeFlag>) -> Poll<F::Output> {
+    let w = Waker::from(flag.clone());
+    let mut cx = Context::from_waker(&w);
+    fut.poll(&mut cx)
 }
 
 pub type NetRef = Rc<RefCell<Net>>;
@@ -198,7 +237,7 @@ fn io_err() -> zlink_core::Error {
 impl zlink_core::connection::socket::ReadHalf for SRead {
     fn read(&mut self, buf: &mut [u8]) -> impl Future<Output = zlink_core::Result<usize>> {
         let net = self.0.clone();
-        std::future::poll_fn(move |_cx| {
+        std::future::poll_fn(move |cx| {
             let mut n = net.borrow_mut();
             let lim = n.sizes.get(n.k).copied().unwrap_or(usize::MAX).max(1);
             let cnt = lim.min(buf.len()).min(n.avail.len());
@@ -213,6 +252,7 @@ impl zlink_core::connection::socket::ReadHalf for SRead {
                 if n.closed {
                     return Poll::Ready(Ok(0));
                 }
+                n.waker = Some(cx.waker().clone());
                 return Poll::Pending;
             }
             for b in buf.iter_mut().take(cnt) {
